@@ -149,7 +149,8 @@ def cmd_run(pid, tier, keep=False):
     seed = int(os.environ.get('VERIF_SEED', '0') or 0)
     plan = load_plan(pid, tier)
     units = plan['units']
-    deadline_s = float(os.environ.get('VERIF_DEADLINE_S', plan.get('deadline_s', 240 if tier == 'quick' else 1500)))
+    # exploration budget (seconds after the build); floors keep a loaded machine from cutting a tier short
+    deadline_s = float(os.environ.get('VERIF_DEADLINE_S', max(plan.get('deadline_s', 0), 600 if tier == 'quick' else 2400)))
     bdir = os.path.join(VERIF, 'build', '%s-%s' % (pid, tier))
     shutil.rmtree(bdir, ignore_errors=True)
     os.makedirs(bdir)
@@ -190,7 +191,9 @@ def cmd_run(pid, tier, keep=False):
 
     def job(t):
         u, i, n, out = t
-        left = deadline_s - (time.time() - t_start)
+        # the deadline budgets the exploration, not the compilation: a slow (loaded) machine must not turn a
+        # check into a vacuous pass because the build alone used up the time
+        left = deadline_s - (time.time() - t_built)
         return t, run_shard(u, i, n, out, left)
 
     recs = []
@@ -348,6 +351,9 @@ def cmd_run(pid, tier, keep=False):
         len(outcomes), len(coverage['configs']), t_built - t_start, wall, exhaustive, ' VACUOUS(one outcome class)' if vacuous else ''))
     if not keep:
         shutil.rmtree(bdir, ignore_errors=True)
+    if n_prog == 0 or tot['evals'] == 0:
+        print('INFRA-ERROR property=%s: no program was executed (deadline or filter); this run decides nothing' % pid)
+        return 2
     if infra and not viol_lines:
         print('INFRA-ERROR property=%s: %d worker(s) failed and no violation was attributed; this run decides nothing' % (pid, len(infra)))
         return 2
